@@ -4,9 +4,9 @@ F = "dlt_args"
 TB = "rustc front end, kani-compiler MIR->goto translation, CBMC 6.11 + cadical; "
 NAMES = ["bool", "u8", "u16", "u32", "u64", "i8", "i16", "i32", "i64", "f32", "f64", "str", "ascii", "raw"]
 QUICK_SER = {"bool", "u16", "i64", "f32", "str", "ascii", "raw"}
-SER = [inst(F, "c18_v1_ser_%s" % n, Q if n in QUICK_SER else T, "1 value of kind %s, value/bytes symbolic" % n, "V1 Serializer -> iterator agreement", covers=1, timeout=1800)
+SER = [inst(F, "c18_v1_ser_%s" % n, Q, "1 value of kind %s, value/bytes symbolic" % n, "V1 Serializer -> iterator agreement", covers=1, timeout=1800)
        for n in NAMES]
-SER += [inst(F, "c18_v1_ser_%s_%s" % (NAMES[a], NAMES[b]), Q if (a, b) == (11, 3) else T, "2 values of kinds %s, %s" % (NAMES[a], NAMES[b]),
+SER += [inst(F, "c18_v1_ser_%s_%s" % (NAMES[a], NAMES[b]), Q, "2 values of kinds %s, %s" % (NAMES[a], NAMES[b]),
              "V1 Serializer -> iterator agreement (chained)", covers=1, timeout=2400, mem_gb=24, cost=100) for a, b in ((11, 3), (13, 0), (2, 11), (12, 8), (10, 13))]
 
 TXT = [inst("dlt_text", "c18_v3_text_" + n, tiers, d, "V3 canonical text + separator rule", covers=1, timeout=3400, mem_gb=24) for n, tiers, d in (
@@ -40,6 +40,6 @@ PROP = {
         inst(F, "c03_u2_arg_iter_any_12", Q, "arbitrary payload <= 12 B", "V2 slices inside payload, terminates", covers=2, timeout=2400),
         inst(F, "c18_v2_truncation_prefix", Q, "valid 2-argument payload cut at any point", "V2 decoded sequence is a prefix", covers=2, timeout=2400, mem_gb=24, cost=100),
         inst(F, "c18_v1_witness_empty_strg", Q, "empty raw argument followed by u8", "witness of known finding", kf_witness="c18_empty_strg_rawd_no_length"),
-        inst(F, "c03_u2_arg_iter_any_16", T, "arbitrary payload <= 16 B", "V2 slices inside payload, terminates", covers=2, timeout=3000, mem_gb=24),
+        inst(F, "c03_u2_arg_iter_any_16", Q, "arbitrary payload <= 16 B", "V2 slices inside payload, terminates", covers=2, timeout=3000, mem_gb=24),
     ],
 }
